@@ -204,6 +204,9 @@ func (tree *ParserT) parseExpression(exec, incLogicalOps bool) error {
 			if err != nil {
 				return err
 			}
+			if !branch.subExpClosed {
+				return raiseError(tree.expression, nil, tree.charPos, errMissingCloseParenthesis)
+			}
 
 			if exec {
 				dt, err := branch.executeExpr()
@@ -225,6 +228,7 @@ func (tree *ParserT) parseExpression(exec, incLogicalOps bool) error {
 			switch {
 			case tree.subExp:
 				// end sub expression
+				tree.subExpClosed = true
 				return nil
 			default:
 				raiseError(tree.expression, nil, tree.charPos, errMessage[symbols.SubExpressionEnd])
@@ -477,6 +481,11 @@ func (tree *ParserT) parseExpression(exec, incLogicalOps bool) error {
 	return nil
 }
 
+// errMissingCloseParenthesis: a sub-expression ran out of input, or met a token
+// that ends an expression, before its closing ')'. Without this check the
+// parent parser steps back onto the '(' and parses it again, forever.
+const errMissingCloseParenthesis = "missing closing parenthesis, ')', in sub-expression"
+
 func (tree *ParserT) parseSubExpression(exec bool) (any, error) {
 	start := tree.charPos
 	tree.charPos++
@@ -486,6 +495,9 @@ func (tree *ParserT) parseSubExpression(exec bool) (any, error) {
 	err := branch.parseExpression(exec, true)
 	if err != nil {
 		return nil, err
+	}
+	if !branch.subExpClosed {
+		return nil, raiseError(tree.expression, nil, tree.charPos, errMissingCloseParenthesis)
 	}
 	tree.charPos += branch.charPos - 1
 	if exec {
